@@ -504,7 +504,7 @@ func evaluate(c Case) evaluation {
 			bad = append(bad, "invariant: "+m)
 		}
 		if p := out.Panic; p != nil {
-			d := fmt.Sprintf("%s panicked under concurrency only (thread %d, %s phase): %s; innermost library frame %s\n%s", p.Op, p.Thread, p.Phase, p.Msg, p.Frame, clip(p.Stack, 2500))
+			d := fmt.Sprintf("%s panicked in the concurrent phase (thread %d, %s): %s; innermost library frame %s\n%s", p.Op, p.Thread, p.Phase, p.Msg, p.Frame, clip(p.Stack, 2500))
 			if id := panicID(c, p); id != "" && vt.IsOpen(id) {
 				ev.known[id] = fmt.Sprintf("%s panics: %s", p.Frame, p.Msg)
 			} else {
